@@ -63,21 +63,21 @@ def truncFrac (vt x : Nat) (negExp : Bool) (j : Nat) : Nat × Nat :=
   if negExp then (vt, 10 ^ (x + j)) else if x ≥ j then (vt * 10 ^ (x - j), 1) else (vt, 10 ^ (j - x))
 
 /-- **`realResult` on a truncated mantissa**, both exponent signs -/
-theorem realResult_trunc (neg : Bool) (v n x : Nat) (negExp : Bool) (off j vt : Nat) (hv17 : 10 ^ 17 ≤ v) (hv : v < 2 ^ 64)
+theorem realResult_trunc (neg : Bool) (v n x : Nat) (negExp : Bool) (off j vt : Nat) (hv16 : 10 ^ 16 ≤ v) (hv : v < 2 ^ 64)
     (hvn : 10 ^ (n - 1) ≤ v) (hvn2 : v < 10 ^ n) (hn1 : 1 ≤ n) (hn : n ≤ 20) (hx : x < 2 ^ 31)
-    (ht1 : v * 10 ^ j ≤ vt) (ht2 : vt < (v + 1) * 10 ^ j) :
+    (ht1 : v * 10 ^ j ≤ vt) (ht2 : 10 ^ 17 * vt < (10 ^ 17 + 1) * (v * 10 ^ j)) :
     Good neg (truncFrac vt x negExp j).1 (truncFrac vt x negExp j).2 off (realResult neg v n x negExp off) := by
   have h10 : ∀ k : Nat, 0 < 10 ^ k := fun k => Nat.pow_pos (by decide)
   cases negExp with
   | true =>
-    have := good_of_class (realResult_neg_trunc neg v n x off j vt hv17 hv hvn2 hn hx ht1 ht2)
+    have := good_of_class (realResult_neg_trunc neg v n x off j vt hv16 hv hvn2 hn hx ht1 ht2)
     simpa [truncFrac] using this
   | false =>
-    have hv0 : v ≠ 0 := by have := h10 17; omega
+    have hv0 : v ≠ 0 := by have := h10 16; omega
     have hadd : add32 x n = x + n := add32_eq _ _ (by omega)
     -- the exact fraction N/D with v·10^x·D ≤ N < (v+1)·10^x·D
     obtain ⟨N, D, hND, hD, hb1, hb2⟩ : ∃ N D, truncFrac vt x false j = (N, D) ∧ 0 < D ∧
-        v * 10 ^ x * D ≤ N ∧ N < (v + 1) * 10 ^ x * D := by
+        v * 10 ^ x * D ≤ N ∧ 10 ^ 17 * N < (10 ^ 17 + 1) * (v * 10 ^ x * D) := by
       unfold truncFrac
       simp only [Bool.false_eq_true, if_false]
       by_cases hxj : x ≥ j
@@ -85,14 +85,14 @@ theorem realResult_trunc (neg : Bool) (v n x : Nat) (negExp : Bool) (off j vt : 
         · have e : v * 10 ^ x * 1 = v * 10 ^ j * 10 ^ (x - j) := by
             rw [Nat.mul_one, Nat.mul_assoc, ← Nat.pow_add]; congr 2; omega
           rw [e]; exact Nat.mul_le_mul_right _ ht1
-        · have e : (v + 1) * 10 ^ x * 1 = (v + 1) * 10 ^ j * 10 ^ (x - j) := by
-            rw [Nat.mul_one, Nat.mul_assoc, ← Nat.pow_add]; congr 2; omega
-          rw [e]; exact Nat.mul_lt_mul_of_pos_right ht2 (h10 _)
+        · have e : (10 ^ 17 + 1) * (v * 10 ^ x * 1) = (10 ^ 17 + 1) * (v * 10 ^ j) * 10 ^ (x - j) := by
+            rw [Nat.mul_one, Nat.mul_assoc (10 ^ 17 + 1), Nat.mul_assoc v, ← Nat.pow_add]; congr 3; omega
+          rw [e, ← Nat.mul_assoc]; exact Nat.mul_lt_mul_of_pos_right ht2 (h10 _)
       · refine ⟨_, _, by rw [if_neg hxj], h10 _, ?_, ?_⟩
         · have e : v * 10 ^ x * 10 ^ (j - x) = v * 10 ^ j := by
             rw [Nat.mul_assoc, ← Nat.pow_add]; congr 2; omega
           rw [e]; exact ht1
-        · have e : (v + 1) * 10 ^ x * 10 ^ (j - x) = (v + 1) * 10 ^ j := by
+        · have e : v * 10 ^ x * 10 ^ (j - x) = v * 10 ^ j := by
             rw [Nat.mul_assoc, ← Nat.pow_add]; congr 2; omega
           rw [e]; exact ht2
     rw [hND]
@@ -106,7 +106,7 @@ theorem realResult_trunc (neg : Bool) (v n x : Nat) (negExp : Bool) (off j vt : 
           _ = 10 ^ (n - 1) * 10 ^ x * D := by rw [Nat.pow_add]
           _ ≤ v * 10 ^ x * D := Nat.mul_le_mul_right _ (Nat.mul_le_mul_right _ hvn)
           _ ≤ N := hb1
-    · obtain ⟨p, hp, hclose, hfloor⟩ := powerOfPositiveTen_close_trunc_rat v x N D hv17 hv (by omega) hD hb1 hb2
+    · obtain ⟨p, hp, hclose, hfloor⟩ := powerOfPositiveTen_close_trunc_rat v x N D hv16 hv (by omega) hD hb1 hb2
       have hp63 := powerOfPositiveTen_lt v x p hp
       refine ⟨⟨.real, p ||| (if neg then 0x8000000000000000 else 0), off⟩, ?_, rfl,
         Or.inr ⟨rfl, or_sign_div p neg hp63, ?_, ?_⟩⟩
